@@ -40,6 +40,11 @@ func (g *gzipResponseWriter) WriteHeader(code int) {
 	if g.wroteHeader {
 		return
 	}
+	// Informational (1xx) responses precede the final response: pass them through at once
+	if code >= 100 && code < 200 && code != http.StatusSwitchingProtocols {
+		g.ResponseWriter.WriteHeader(code)
+		return
+	}
 
 	g.statusCode = code
 	g.wroteHeader = true
